@@ -27,10 +27,13 @@ LEVEL_TEXT = ('static analysis: (D1) a kind system for index values (family LABE
               'end and both side counts >= min_probes, counted by start < end / start >= end, only between segments of one chromosome, also when '
               'the next segment starts after a gap. D3 also has two genes whose spans overlap (every gene is examined for every boundary) and D2 '
               "runs group_by_genes end to end with the real by_gene on literal bins holding '-', '.', 'CGH' and Antitarget names: exactly the "
-              'named genes are reported, with the bins between their first and last bin. (CLI) the `genemetrics / breaks` command line(s), '
-              'through a model of argparse built from the declarations in commands.py and the real _cmd_ body interpreted with readers, library '
-              'step and writers stubbed: bins and segments in their roles, threshold, minimum bin count, --drop-low-coverage and the sex options '
-              "reach the report functions as given. Does not decide behaviour on interleaved genes (outside the property's premise).")
+              'named genes are reported, with the bins between their first and last bin. gene_metrics_by_segment runs end to end on literal bins '
+              "(a gene whose own bins have no usable coverage is still listed with the segment's log2); (D4) do_genemetrics hands shift_xx one "
+              'and the same sex for bins and segments: the stated one, else the one inferred from the bins. (CLI) the `genemetrics / breaks` '
+              'command line(s), through a model of argparse built from the declarations in commands.py and the real _cmd_ body interpreted with '
+              'readers, library step and writers stubbed: bins and segments in their roles, threshold, minimum bin count, --drop-low-coverage and'
+              " the sex options reach the report functions as given. Does not decide behaviour on interleaved genes (outside the property's "
+              'premise).')
 TECHNIQUE = ("index-kind type system over one function's def-use chains; bounded exhaustive interpretation of by_gene on literal tables with "
              'literal index labels; abstract interpretation of the summary functions on symbolic rows')
 
